@@ -104,6 +104,13 @@ use stdlib::f64::consts::LOG2_10;
 include!(concat!(env!("OUT_DIR"), "/default_precision.rs"));
 
 #[macro_use]
+mod verif_macros;
+
+// observation hooks for runtime monitors (only with --cfg bigdecimal_verif)
+#[cfg(bigdecimal_verif)]
+pub mod verif_hooks;
+
+#[macro_use]
 mod macros;
 
 // "low level" functions
@@ -181,9 +188,12 @@ fn get_rounding_term(num: &BigInt) -> u8 {
 
     let digits = (num.bits() as f64 / LOG2_10) as u64;
     let mut n = ten_to_the(digits);
+    verif_probe!(RoundingTerm);
 
     // loop-method
+    verif_loop_guard!(iterations);
     loop {
+        verif_loop_tick!(iterations, RoundingTerm, 8);
         if *num < n {
             return 1;
         }
@@ -304,16 +314,20 @@ impl BigDecimal {
     #[inline]
     pub fn with_scale(&self, new_scale: i64) -> BigDecimal {
         if self.int_val.is_zero() {
+            verif_probe!(WithScale_Zero);
             return BigDecimal::new(BigInt::zero(), new_scale);
         }
 
+        verif_probe_if!(new_scale == self.scale, WithScale_Equal);
         match new_scale.cmp(&self.scale) {
             Ordering::Greater => {
+                verif_probe!(WithScale_Up);
                 let scale_diff = new_scale - self.scale;
                 let int_val = &self.int_val * ten_to_the(scale_diff as u64);
                 BigDecimal::new(int_val, new_scale)
             }
             Ordering::Less => {
+                verif_probe!(WithScale_Down);
                 let scale_diff = self.scale - new_scale;
                 let int_val = &self.int_val / ten_to_the(scale_diff as u64);
                 BigDecimal::new(int_val, new_scale)
@@ -337,14 +351,17 @@ impl BigDecimal {
         use stdlib::cmp::Ordering::*;
 
         if self.int_val.is_zero() {
+            verif_probe!(Wsr_Zero);
             return BigDecimal::new(BigInt::zero(), new_scale);
         }
 
         match new_scale.cmp(&self.scale) {
             Ordering::Equal => {
+                verif_probe!(Wsr_Equal);
                 self.clone()
             }
             Ordering::Greater => {
+                verif_probe!(Wsr_Extend);
                 // increase number of zeros
                 let scale_diff = new_scale - self.scale;
                 let int_val = &self.int_val * ten_to_the(scale_diff as u64);
@@ -357,17 +374,20 @@ impl BigDecimal {
                 let int_digit_count = digit_count as i64 - self.scale;
                 let rounded_int = match int_digit_count.cmp(&-new_scale) {
                     Equal => {
+                        verif_probe!(Wsr_RoundAtLead);
                         let (&last_digit, remaining) = digits.split_last().unwrap();
                         let trailing_zeros = remaining.iter().all(Zero::is_zero);
                         let rounded_digit = mode.round_pair(sign, (0, last_digit), trailing_zeros);
                         BigInt::new(sign, vec![rounded_digit as u32])
                     }
                     Less => {
+                        verif_probe!(Wsr_RoundLeftOfLead);
                         debug_assert!(!digits.iter().all(Zero::is_zero));
                         let rounded_digit = mode.round_pair(sign, (0, 0), false);
                         BigInt::new(sign, vec![rounded_digit as u32])
                     }
                     Greater => {
+                        verif_probe!(Wsr_RoundInside);
                         // location of new rounding point
                         let scale_diff = (self.scale - new_scale) as usize;
 
@@ -381,10 +401,12 @@ impl BigDecimal {
                         if rounded_digit < 10 {
                             digits[scale_diff] = rounded_digit;
                         } else {
+                            verif_probe!(Wsr_Carry);
                             digits[scale_diff] = 0;
                             let mut i = scale_diff + 1;
                             loop {
                                 if i == digit_count {
+                                    verif_probe!(Wsr_CarryNewDigit);
                                     digits.push(1);
                                     break;
                                 }
@@ -421,6 +443,7 @@ impl BigDecimal {
     /// Change to requested scale by multiplying or truncating
     fn set_scale(&mut self, new_scale: i64) {
         if self.int_val.is_zero() {
+            verif_probe!(SetScale_Zero);
             self.scale = new_scale;
             return;
         }
@@ -429,16 +452,20 @@ impl BigDecimal {
             (Ordering::Greater, scale_diff) => {
                 self.scale = new_scale;
                 if scale_diff < 20 {
+                    verif_probe!(SetScale_UpU64);
                     self.int_val *= ten_to_the_u64(scale_diff as u8);
                 } else {
+                    verif_probe!(SetScale_UpBig);
                     self.int_val *= ten_to_the(scale_diff);
                 }
             }
             (Ordering::Less, scale_diff) => {
                 self.scale = new_scale;
                 if scale_diff < 20 {
+                    verif_probe!(SetScale_DownU64);
                     self.int_val /= ten_to_the_u64(scale_diff as u8);
                 } else {
+                    verif_probe!(SetScale_DownBig);
                     self.int_val /= ten_to_the(scale_diff);
                 }
             }
@@ -486,8 +513,10 @@ impl BigDecimal {
     pub fn with_prec(&self, prec: u64) -> BigDecimal {
         let digits = self.digits();
 
+        verif_probe_if!(digits == prec, WithPrec_Equal);
         match digits.cmp(&prec) {
             Ordering::Greater => {
+                verif_probe!(WithPrec_Round);
                 let diff = digits - prec;
                 let p = ten_to_the(diff);
                 let (mut q, r) = self.int_val.div_rem(&p);
@@ -495,7 +524,9 @@ impl BigDecimal {
                 // check for "leading zero" in remainder term; otherwise round
                 // (away from zero: the remainder carries the sign of the number)
                 let r_abs = r.abs();
+                verif_probe_if!(!(p < 10 * &r_abs), WithPrec_LeadingZeroRemainder);
                 if p < 10 * &r_abs {
+                    verif_probe!(WithPrec_TermApplied);
                     if r.is_negative() {
                         q -= get_rounding_term(&r_abs);
                     } else {
@@ -509,6 +540,7 @@ impl BigDecimal {
                 }
             }
             Ordering::Less => {
+                verif_probe!(WithPrec_Pad);
                 let diff = prec - digits;
                 BigDecimal {
                     int_val: &self.int_val * ten_to_the(diff),
@@ -847,12 +879,14 @@ impl BigDecimal {
     #[inline]
     pub fn exp(&self) -> BigDecimal {
         if self.is_zero() {
+            verif_probe!(Exp_Zero);
             return BigDecimal::one();
         }
 
         let target_precision = DEFAULT_PRECISION;
 
         if self.is_negative() {
+            verif_probe!(Exp_Negative);
             // the alternating series suffers from cancellation for negative
             // arguments: evaluate e^|x| and take the reciprocal
             let exp_abs = self.abs().exp_series(target_precision + 5);
@@ -860,6 +894,7 @@ impl BigDecimal {
             return recip.with_prec(target_precision);
         }
 
+        verif_probe!(Exp_Positive);
         self.exp_series(target_precision + 5).with_prec(target_precision)
     }
 
@@ -873,7 +908,12 @@ impl BigDecimal {
         let mut prev_result = result.clone();
         let mut factorial = BigInt::one();
 
+        verif_loop_guard!(terms);
         for n in 2.. {
+            // (cap: far beyond the number of terms needed for |x| < 10^integer-digits)
+            verif_loop_tick!(terms, ExpSeries, 4000u64.saturating_add(
+                40u64.saturating_mul(10u64.saturating_pow((precision as i64 - self.scale).max(0).min(19) as u32))
+            ));
             term *= self;
             factorial *= n;
             // ∑ term=x^n/n!
@@ -891,8 +931,10 @@ impl BigDecimal {
     #[must_use]
     pub fn normalized(&self) -> BigDecimal {
         if self == &BigDecimal::zero() {
+            verif_probe!(Norm_Zero);
             return BigDecimal::zero();
         }
+        verif_probe!(Norm_Trim);
         let (sign, mut digits) = self.int_val.to_radix_be(10);
         let trailing_count = digits.iter().rev().take_while(|i| **i == 0).count();
         let trunc_to = digits.len() - trailing_count;
@@ -1036,7 +1078,10 @@ impl Hash for BigDecimal {
         let mut dec_str = self.int_val.to_str_radix(10);
         let scale = self.scale;
         let zero = self.int_val.is_zero();
+        verif_probe_if!(zero, Hash_Zero);
+        verif_probe_if!(scale == 0 && !zero, Hash_Plain);
         if scale > 0 && !zero {
+            verif_probe!(Hash_Trim);
             let mut cnt = 0;
             dec_str = dec_str
                 .trim_right_matches(|x| {
@@ -1045,6 +1090,7 @@ impl Hash for BigDecimal {
                 })
                 .to_string();
         } else if scale < 0 && !zero {
+            verif_probe!(Hash_AppendZeros);
             dec_str.push_str(&"0".repeat(self.scale.abs() as usize));
         }
         dec_str.hash(state);
@@ -1082,6 +1128,7 @@ impl One for BigDecimal {
 fn impl_division(mut num: BigInt, den: &BigInt, mut scale: i64, max_precision: u64) -> BigDecimal {
     // quick zero check
     if num.is_zero() {
+        verif_probe!(Div_ZeroNum);
         return BigDecimal::new(num, 0);
     }
 
@@ -1093,7 +1140,11 @@ fn impl_division(mut num: BigInt, den: &BigInt, mut scale: i64, max_precision: u
     }
 
     // shift digits until numerator is larger than denominator (set scale appropriately)
+    verif_loop_guard!(shifts);
     while num < *den {
+        // (cap: the number of decimal digits of the denominator, from its bit length)
+        verif_loop_tick!(shifts, DivNormalize, den.bits() / 3 + 3);
+        verif_probe!(Div_Normalize);
         scale += 1;
         num *= 10;
     }
@@ -1103,6 +1154,7 @@ fn impl_division(mut num: BigInt, den: &BigInt, mut scale: i64, max_precision: u
 
     // division complete
     if remainder.is_zero() {
+        verif_probe!(Div_EarlyExact);
         return BigDecimal {
             int_val: quotient,
             scale: scale,
@@ -1115,7 +1167,9 @@ fn impl_division(mut num: BigInt, den: &BigInt, mut scale: i64, max_precision: u
     // quotient will be 1 digit upon next division
     remainder *= 10;
 
+    verif_loop_guard!(quotient_digits);
     while !remainder.is_zero() && precision < max_precision {
+        verif_loop_tick!(quotient_digits, DivDigits, max_precision + 2);
         let (q, r) = remainder.div_rem(den);
         quotient = quotient * 10 + q;
         remainder = r * 10;
@@ -1124,7 +1178,9 @@ fn impl_division(mut num: BigInt, den: &BigInt, mut scale: i64, max_precision: u
         scale += 1;
     }
 
+    verif_probe_if!(remainder.is_zero(), Div_ExactInLoop);
     if !remainder.is_zero() {
+        verif_probe!(Div_Inexact);
         // round final number with remainder
         quotient += get_rounding_term(&remainder.div(den));
     }
@@ -1262,19 +1318,24 @@ impl BigDecimalRef<'_> {
     pub fn to_owned_with_scale(&self, scale: i64) -> BigDecimal {
         use stdlib::cmp::Ordering::*;
 
+        verif_probe_if!(self.scale == scale, Tows_Equal);
         let digits = match arithmetic::diff(self.scale, scale) {
             (Equal, _) => self.digits.clone(),
             (Less, scale_diff) => {
                 if scale_diff < 20 {
+                    verif_probe!(Tows_UpU64);
                     self.digits * ten_to_the_u64(scale_diff as u8)
                 } else {
+                    verif_probe!(Tows_UpBig);
                     self.digits * ten_to_the_uint(scale_diff)
                 }
             }
             (Greater, scale_diff) => {
                 if scale_diff < 20 {
+                    verif_probe!(Tows_DownU64);
                     self.digits / ten_to_the_u64(scale_diff as u8)
                 } else {
+                    verif_probe!(Tows_DownBig);
                     self.digits / ten_to_the_uint(scale_diff)
                 }
             }
